@@ -96,8 +96,9 @@ def to_case(o):
     if o["kind"] == "wga":
         e = o["err"]
         err = "(Some %d%%N)" % e["n"] if e["k"] == "errno" else "None"
-        return "CWga %d [%s] %d %s [%s] %s" % (o["version"], "; ".join(bstr(x or []) for x in (o["names"]["l"] or [])), o["fid"],
-                                                coq_bool(o["getattr_fails"]), ocalls(o["calls"]), err)
+        return "CWga %d [%s] %d %s [%s] %s [%s] [%s]" % (o["version"], "; ".join(bstr(x or []) for x in (o["names"]["l"] or [])), o["fid"],
+                                                        coq_bool(o["getattr_fails"]), ocalls(o["calls"]), err,
+                                                        "; ".join(val(x) for x in (o.get("ret") or [])), "; ".join(val(x) for x in (o.get("ans") or [])))
     if o["kind"] == "errno":
         return "CErr (%s) %d" % (errv(o["answer"]), o["errno"])
     params = "fun k => " + "".join("if (k =? %s)%%string then %s else " % (coq_string(k), val(v)) for k, v in sorted(o["params"].items())) + 'VS "?"'
@@ -159,8 +160,9 @@ def run(ctx):
                 "modes/flags/ids from {0,1,0o777,0o7777,0o17777,2^32-1,2^32-2,2^31,random,setuid|setgid|sticky,type bits}, 64-bit offsets/sizes/times, names of 1..24 "
                 "arbitrary bytes; ExtractErrno on 600 (12000 thorough) generated error trees of depth <= 4 + the f2c8a14 corpus; distinct = distinct records",
         "correspondence": {"cases": len(obs), "mismatches": nm, "by_kind": kinds},
-        "samples": [next(o for o in obs if o.get("op") == "Mkdir" and o["version"] == 2), next(o for o in obs if o.get("op") == "Lock"),
-                    next(o for o in obs if o["kind"] == "errno" and o["answer"]["k"] == "join")],
+        "samples": [x for x in (next((o for o in obs if o.get("op") == "Mkdir" and o.get("version") == 2), None),
+                                next((o for o in obs if o.get("op") == "Lock"), None),
+                                next((o for o in obs if o["kind"] == "errno" and o["answer"]["k"] == "join"), None)) if x is not None],
     })
 
 
